@@ -83,8 +83,12 @@ def cli_args(cmd, opts, inp, w):
 CFG = {"convert": "single", "demux": "demux", "demuxel": "demuxel", "remove": "remove"}
 
 
+OUTCOMES = {}
+
+
 def compare(res, label, cmd, opts, nals, data, ec, files, mo, replay_extra):
     """compare CLI outputs with the model's prediction at the (type, payload) level"""
+    OUTCOMES[ec] = OUTCOMES.get(ec, 0) + 1
     rp = dict({"cmd": cmd, "opts": opts, "stream_hex": data.hex() if len(data) < 400000 else "(large)", "nals": [n.model() for n in nals] if len(data) < 400000 else []}, **replay_extra)
     if mo is None:
         if ec == "0":
@@ -122,7 +126,8 @@ def run(res):
     w = cli.Work("c05")
     trees = RC.valid_trees(res.seed, 60, "c05", profile=7)
     okl = C.dvh().run(["parseclass rpu " + (RC.SC4 + raw).hex() for t, raw, m in trees])
-    pool = [raw.rstrip(b"\x00") for (t, raw, m), o in zip(trees, okl) if o == "ok"] + [v for k, v in RC.asset_cases() if k.startswith(("fel", "mel", "profile8", "profile5"))]
+    pool = [raw.rstrip(b"\x00") for (t, raw, m), o in zip(trees, okl) if o == "ok" and raw[:3] == bytes([0x19, 8, 9])] + [v for k, v in RC.asset_cases() if k.startswith(("fel", "mel", "profile8", "profile5"))]
+    # (the NAL form accepted by the HEVC commands requires the 19 08 09 prefix; other formats only make every conversion fail)
     ncase = 150 if res.tier == "quick" else 1500
     cases = []
     for k in range(ncase):
@@ -205,7 +210,7 @@ def run(res):
         "evaluations": nrun + len(lines),
         "distinct_nontrivial": len(cases),
         "rule": "streams from access-unit templates ([AUD] [VPS SPS PPS] [prefix SEI]* slice+ [EL NALs]* [suffix SEI] RPU [EOS/EOB]; 1..14 frames; NAL sizes 3 B..4 kB; mixed 3/4-byte start codes; trailing zeros) x {convert, demux, demux --el-only, remove} x {-m 0..5, --crop, --discard, --start-code annex-b} x hook chunk sizes (divisors of 100000) x {file, piped stdin with random write fragmentation}; a sweep placing a start code at every offset -4..+4 around a chunk-size multiple; outputs re-split by an independent Annex-B splitter and compared as (type, payload) sequences with the Coq routing model (RPU payloads under -m through the model's conversion); distinct (stream, command, options) cases counted",
-        "cli_runs": nrun,
+        "cli_runs": nrun, "exit_codes": dict(OUTCOMES),
         "samples": [{"cmd": c[1], "opts": c[2], "nals": len(c[3]), "bytes": len(c[4]), "chunk": c[5]} for c in cases[:4]],
     })
     res.assumptions += ["slice-header / POC parsing by hevc_parser is an input of the model (frame attributes supplied by the generator, frame indexing validated against hevc_parser in the C07 check)", "start-code length of the very first NAL under --start-code annex-b is not compared (depends on chunking, see DESIGN.md)"]
